@@ -193,14 +193,36 @@ def build_tasks(seed, tier='quick'):
                     continue   # jbcd's alpha is a scalar regularisation parameter
                 numeric = not (par == 'weights' and module == 'classification')
                 for xo in orders:
-                    for delta in ((-1, 1, 17, 'empty') if not two_d else
-                                  ('rows-1', 'cols+1', 'rows+5', 'transposed', 'empty')):
+                    for delta in ((-1, 1, 17, 'double', 'len2', 'len1', 'scalar', 'empty') if not two_d else
+                                  ('rows-1', 'cols+1', 'rows+5', 'transposed', 'one_row', 'one_col', 'len1', 'scalar',
+                                   'empty')):
                         tasks.append(dict(base, kind='array_length', param=par, vclass=vc(f'len:{delta}', xo),
                                           delta=delta, xorder=xo, claimed=True))
                     for bad in ('nan', 'pos_inf', 'neg_inf'):
                         for pos in ('first', 'interior', 'last'):
                             tasks.append(dict(base, kind='array_nonfinite', param=par, vclass=vc(bad, xo, pos),
                                               bad=bad, pos=pos, xorder=xo, claimed=numeric))
+            # (d2) per-point arrays forwarded through method_kwargs by the optimizers
+            if module == 'optimizers' and 'method_kwargs' in params:
+                sides = ('left', 'right', 'both') if name == 'optimize_extended_range' else (None,)
+                fw = [('weights', None)]
+                if name in ('optimize_extended_range', 'collab_pls', 'custom_bc', 'individual_axes'):
+                    fw.append(('alpha', 'aspls'))
+                for par, meth in fw:
+                    for side in sides:
+                        for xo in orders:
+                            tag = f'kw.{par}' + (f'[{side}]' if side else '')
+                            for delta in ((-1, 1, 17, 'double', 'len2', 'len1', 'scalar', 'empty') if not two_d else
+                                          ('rows-1', 'cols+1', 'rows+5', 'transposed', 'one_row', 'one_col', 'len1',
+                                           'scalar', 'empty')):
+                                tasks.append(dict(base, kind='kwarg_array_length', param=tag, kwarg=par, inner=meth,
+                                                  side=side, vclass=vc(f'len:{delta}', xo), delta=delta, xorder=xo,
+                                                  claimed=True))
+                            for bad in ('nan', 'pos_inf', 'neg_inf'):
+                                for pos in ('first', 'interior', 'last'):
+                                    tasks.append(dict(base, kind='kwarg_array_nonfinite', param=tag, kwarg=par,
+                                                      inner=meth, side=side, vclass=vc(bad, xo, pos), bad=bad, pos=pos,
+                                                      xorder=xo, claimed=True))
             # (e) unknown method name
             if 'method' in params:
                 for bogus in ('not_a_method', 'asls_', ''):
@@ -341,12 +363,29 @@ def run_task(t):
                         Baseline2D(x, z).collab_pls(np.array([yy, yy]), **M.call_kwargs(name, True))
                     else:
                         _call(name, two_d, x, z, yy)
-            elif kind in ('array_length', 'array_nonfinite'):
+            elif kind in ('array_length', 'array_nonfinite', 'kwarg_array_length', 'kwarg_array_nonfinite'):
                 arr = np.ones_like(y)
-                if kind == 'array_length':
+                if name == 'individual_axes' and kind.startswith('kwarg'):
+                    arr = np.ones(y.shape[0])      # per-point arrays of the 1-D method along axis 0
+                if kind.endswith('array_length'):
                     d = t['delta']
                     if d == 'empty':
                         arr = np.array([])
+                    elif d == 'scalar':
+                        arr = 1.0
+                    elif d == 'len1':
+                        arr = np.ones(1) if (not two_d or arr.ndim == 1) else np.ones((1, 1))
+                    elif d == 'len2':
+                        arr = np.ones(2)
+                    elif d == 'double':
+                        arr = np.concatenate([arr, arr])
+                    elif d == 'one_row':
+                        arr = arr[:1] if arr.ndim == 2 else arr[:2]
+                    elif d == 'one_col':
+                        arr = arr[:, :1] if arr.ndim == 2 else np.concatenate([arr, arr])
+                    elif arr.ndim == 1 and two_d:
+                        arr = {'rows-1': arr[:-1], 'cols+1': np.concatenate([arr, arr[:1]]),
+                               'rows+5': np.concatenate([arr, arr[:5]]), 'transposed': np.ones(y.shape[1])}[d]
                     elif not two_d:
                         arr = arr[:d] if d < 0 else np.concatenate([arr, arr[:d]])
                     elif d == 'rows+5':
@@ -359,7 +398,21 @@ def run_task(t):
                         arr = arr.T.copy()
                 else:
                     arr[positions(arr.shape, t['pos'])] = BADVAL[t['bad']]
-                _call(name, two_d, x, z, y, **{t['param']: arr})
+                if kind.startswith('kwarg'):
+                    base_kw = dict((M.call_kwargs(name, two_d).get('method_kwargs')) or {})
+                    if t.get('inner') == 'aspls':
+                        base_kw.setdefault('lam', 1e2 if two_d else 1e3)
+                    base_kw[t['kwarg']] = arr
+                    extra = {'method_kwargs': base_kw}
+                    if t.get('inner'):
+                        extra['method'] = t['inner']
+                    if t.get('side'):
+                        extra['side'] = t['side']
+                    if name == 'individual_axes':
+                        extra['axes'] = 0
+                    _call(name, two_d, x, z, y, **extra)
+                else:
+                    _call(name, two_d, x, z, y, **{t['param']: arr})
             elif kind == 'unknown_method':
                 _call(name, two_d, x, z, y, method=t['value'])
             elif kind == 'banded_solver':
